@@ -40,6 +40,7 @@ props! {
     "C13" => c13,
     "C14" => c14,
     "C15" => c15,
+    "C16" => c16,
 }
 
 pub type CheckResult = Result<(), Violation>;
